@@ -228,7 +228,8 @@ def run_random_session(seed, prof, frontend="wsgi", prefix="/", backend="tree", 
                     if rng.random() < 0.2:
                         return None
                     if p in ("calcolor", "abcolor"):
-                        return rng.choice(COLORS)
+                        # (some clients send the colour without the leading '#')
+                        return rng.choice(COLORS) if rng.random() < 0.85 else rng.choice(["FF2968", "00ff00aa"])
                     if p == "order":
                         return str(rng.randint(0, 99))
                     if prof.get("propheavy"):
@@ -238,7 +239,7 @@ def run_random_session(seed, prof, frontend="wsgi", prefix="/", backend="tree", 
                 # order, sometimes with the same property twice
                 k = 1 if rng.random() < prof.get("propsingle", 0.6) else rng.randint(2, 4)
                 ps = [rng.choice(cand) for _ in range(k)] if rng.random() < 0.3 else rng.sample(cand, min(k, len(cand)))
-                s.propupdate(c, [(p, value_for(p)) for p in ps])
+                s.propupdate(c, [(p, value_for(p)) for p in ps], cdata=rng.random() < 0.15)
             elif op == "restart":
                 s.restart(defaults=rng.random() < 0.5)
             elif op == "lock":
